@@ -1,7 +1,8 @@
 (* C01 — parsing untrusted bytes never panics and always terminates; callbacks are bounded.
    The Impl model makes every Rust panic explicit (checked arithmetic, slice indexing, expect) and
    runs its loops on fuel; the theorems say the outcome is never Panic and never OutOfFuel. *)
-From BS Require Import Impl.Visit Ref.MetaDefs Proofs.ImplRefLeaf Proofs.Transfer Proofs.Entries Proofs.Numbers Proofs.Len.
+From BS Require Import Impl.Visit Impl.Access Ref.MetaDefs Proofs.ImplRefLeaf Proofs.ImplRefTx Proofs.Transfer Proofs.Entries Proofs.Numbers Proofs.Len
+  Proofs.SpecLemmas Proofs.RefSpec Proofs.SpecTransfer Proofs.TxSpec Proofs.ObjSpec Proofs.IterSpec.
 Open Scope N_scope.
 
 (* every bsl entry point, every input, every visitor: a value or an error — never a panic, and the
@@ -56,4 +57,34 @@ Proof.
   intros p b pr HD. rewrite (parse_script_l p b HD).
   destruct (l_script b) as [[cb d] r|e]; [|discriminate].
   intros HH. injection HH as <-. cbn [parsed]. eexists. apply script_script_ok.
+Qed.
+
+(* version, lock time, txid preimage and weight of every successfully parsed transaction *)
+Theorem C01_transaction_accessors : forall brk p b h pr h', InLen b -> visit_transaction brk (sl p b) h = (Ok pr, h') ->
+  exists ev, tx_event (parsed pr) = Ok ev.
+Proof.
+  intros brk p b h pr h' HD HV. destruct (tx_parsed_is_obj brk p b h pr h' HD HV) as [t [Hwf [Hb [Hp _]]]].
+  exists (ev_tx p t). rewrite Hp. apply tx_event_spec; [exact Hwf|]. rewrite Hb in HD. exact (InLen_prefix _ _ HD).
+Qed.
+
+(* previous block hash and merkle root of every successfully parsed header *)
+Theorem C01_header_accessors : forall brk p b h pr h', In63 b -> visit_header brk (sl p b) h = (Ok pr, h') ->
+  exists x y, header_prev_blockhash (parsed pr) = Ok x /\ header_merkle_root (parsed pr) = Ok y.
+Proof.
+  intros brk p b h pr h' HD HV. destruct (header_parsed_is_spec brk p b h pr h' HD HV) as [a [_ [_ [_ [_ [_ [_ [_ [A B]]]]]]]]].
+  eexists. eexists. split; [exact A|exact B].
+Qed.
+
+(* the outputs iterator of every successfully parsed output list, driven to exhaustion *)
+Theorem C01_iterator_total : forall brk p b h pr h', In63 b -> visit_txouts brk (sl p b) h = (Ok pr, h') ->
+  exists it res, txouts_iter (parsed pr) = Ok it /\
+                 iter_collect (S (length (bytes (tos_slice (parsed pr))))) it = Ok res.
+Proof.
+  intros brk p b h pr h' HD HV.
+  destruct (T_ok_is_encoding_any E_txouts S_txouts brk p b h pr h' HD HV) as [l [Hwf [Hb [_ [_ [_ [x [Hx Hp]]]]]]]].
+  cbn [s_proj S_txouts spec_of_decodes] in Hx. subst x.
+  change (parsed pr = mk_txouts (sl p (enc_txouts l)) l h') in Hp.
+  assert (H63 : In63 (enc_txouts l)). { cbn [s_enc S_txouts spec_of_decodes] in Hb. rewrite Hb in HD. exact (In63_prefix _ _ HD). }
+  destruct (iter_of_parsed_outputs p l Hwf H63) as [it [res [A [_ [_ [B _]]]]]].
+  exists it, res. rewrite Hp. unfold mk_txouts. cbn [tos_slice bytes sl]. split; [exact A|exact B].
 Qed.
